@@ -311,7 +311,7 @@ class ShiftCmp(Base):
 TBL = [3, 141, 59, 26]
 BTBL = [Bits8(0x11), Bits8(0xEE), Bits8(0x80), Bits8(0x7F)]
 KP = Pst(9, 6)
-STRUCT_BEHAVIORAL = ("StructBuild", "StructReg", "LhsFields", "FreeScalars", "ChildStructPorts", "FieldCmpExt")     # MemberConsts has struct CONSTANTS only: checked strictly     # designs whose blocks touch struct-typed signals / constants (signature class of the Yosys struct findings)
+STRUCT_BEHAVIORAL = ("StructBuild", "StructReg", "LhsFields", "FreeScalars", "ChildStructPorts", "FieldCmpExt", "IfcStructMsg")     # MemberConsts has struct CONSTANTS only: checked strictly     # designs whose blocks touch struct-typed signals / constants (signature class of the Yosys struct findings)
 K5 = 5
 KB = Bits8(0xC3)
 
@@ -1166,6 +1166,167 @@ class FieldCmpExt(Base):
         s.q @= trunc(s.a >> 2, 2)
       else:
         s.q @= trunc(s.b >> 6, 2)
+
+
+M64 = (1 << 64) - 1
+
+
+def _wide_ops_ref(st, a, b, sel, en, reset):
+  x = 0
+  for part in (a, b, a, b, a, b, a, b): x = (x << 8) | part
+  y = ((x * 3) + (x >> 33)) & M64
+  y ^= (x << 35) & M64
+  k = 0x8000000000000001
+  z = (y + k) & M64
+  big = (x << 64 | y) & ((1 << 128) - 1)
+  return None, {"o": (y >> 28) & M8, "p": 1 if x > 0x7FFFFFFFFFFFFFFF else 0, "q": (z >> 56) & M8, "r": (big >> (60 + 4 * sel)) & M8,
+                "t": bin(y).count("1") & 1}
+
+
+@design(_wide_ops_ref)
+class WideOps(Base):
+  """64- and 128-bit arithmetic: multiplication, shifts by more than 32, literals above 2^63, parity of a wide value"""
+  def construct(s):
+    s.ports()
+    s.o = OutPort(Bits8)
+    s.p = OutPort(Bits1)
+    s.q = OutPort(Bits8)
+    s.r = OutPort(Bits8)
+    s.t = OutPort(Bits1)
+    s.x = Wire(Bits64)
+    s.y = Wire(Bits64)
+    s.big = Wire(Bits128)
+
+    @update
+    def up_wo1():
+      s.x @= concat(s.a, s.b, s.a, s.b, s.a, s.b, s.a, s.b)
+
+    @update
+    def up_wo2():
+      s.y @= ((s.x * 3) + (s.x >> 33)) ^ (s.x << 35)
+      s.big @= concat(s.x, s.y)
+
+    @update
+    def up_wo3():
+      s.o @= s.y[28:36]
+      s.p @= s.x > 0x7FFFFFFFFFFFFFFF
+      s.q @= trunc((s.y + 0x8000000000000001) >> 56, 8)
+      s.t @= reduce_xor(s.y)
+      if s.sel == 0: s.r @= s.big[60:68]
+      elif s.sel == 1: s.r @= s.big[64:72]
+      elif s.sel == 2: s.r @= s.big[68:76]
+      else: s.r @= s.big[72:80]
+
+
+class MsgIfc(Interface):
+  def construct(s):
+    s.msg = InPort(Pst)
+    s.val = InPort(Bits1)
+
+
+class MsgOutIfc(Interface):
+  def construct(s):
+    s.msg = OutPort(Pst)
+    s.val = OutPort(Bits1)
+
+
+class IfcStructLeaf(Component):
+  """child with arrays of interfaces that carry struct-typed messages"""
+  def construct(s):
+    s.i = [MsgIfc() for _ in range(2)]
+    s.o = [MsgOutIfc() for _ in range(2)]
+
+    @update
+    def up_isl():
+      for k in range(2):
+        s.o[k].msg @= Pst(s.i[1 - k].msg.y, s.i[1 - k].msg.x)
+        s.o[k].val @= s.i[k].val
+
+
+@design(lambda st, a, b, sel, en, reset: (None, {"o": ((b & 0xF) << 4 | (b >> 4)) if en else 0, "p": ((a & 0xF) << 4) | (a >> 4), "q": (en << 1) | (sel & 1)}))
+class IfcStructMsg(Base):
+  """interfaces with struct messages driven from the parent's block, read back field by field"""
+  def construct(s):
+    s.ports()
+    s.o = OutPort(Bits8)
+    s.p = OutPort(Bits8)
+    s.q = OutPort(Bits2)
+    s.c = IfcStructLeaf()
+
+    @update
+    def up_ism1():
+      s.c.i[0].msg @= Pst(s.a[4:8], s.a[0:4])
+      s.c.i[1].msg @= Pst(s.b[4:8], s.b[0:4])
+      s.c.i[0].val @= s.sel[0]
+      s.c.i[1].val @= s.en
+
+    @update
+    def up_ism2():
+      s.o @= 0
+      if s.c.o[1].val:
+        s.o @= concat(s.c.o[0].msg.x, s.c.o[0].msg.y)
+      s.p @= concat(s.c.o[1].msg.x, s.c.o[1].msg.y)
+      s.q @= concat(s.c.o[1].val, s.c.o[0].val)
+
+
+KM = Pst(0xA, 0x5)
+
+
+@design(lambda st, a, b, sel, en, reset: (None, {"o": 0xA5 if en else 0x5A, "p": 1 if (a & 0xF) == 0xA else 0, "q": 1 if ((a & 0xF) == (a >> 4)) and ((b & 0xF) != (b >> 4)) else 0}))
+class ConstStructFields(Base):
+  """fields of a constant bitstruct (member and closure), slices of one wire compared with each other"""
+  def construct(s):
+    s.ports()
+    s.o = OutPort(Bits8)
+    s.p = OutPort(Bits1)
+    s.q = OutPort(Bits1)
+    s.KM = Pst(0xA, 0x5)
+    km = KM
+
+    @update
+    def up_csf():
+      if s.en:
+        s.o @= concat(s.KM.x, s.KM.y)
+      else:
+        s.o @= concat(km.y, km.x)
+      s.p @= s.a[0:4] == s.KM.x
+      s.q @= (s.a[0:4] == s.a[4:8]) & (s.b[0:4] != s.b[4:8])
+
+
+def _nest_ctl_ref(st, a, b, sel, en, reset):
+  o = 0
+  for i in range(2):
+    for j in range(4):
+      k = i * 4 + j
+      if bit(a, k):
+        v = bit(b, j) if i == 0 else bit(b, 7 - j)
+      else:
+        v = en if j == sel else 0
+      o |= v << k
+  return None, {"o": o}
+
+
+@design(_nest_ctl_ref)
+class NestedControl(Base):
+  """if / else inside two nested loops, the inner arm chosen by comparing a loop variable with a signal"""
+  def construct(s):
+    s.ports()
+    s.o = OutPort(Bits8)
+
+    @update
+    def up_nc():
+      for i in range(2):
+        for j in range(4):
+          if s.a[i * 4 + j]:
+            if i == 0:
+              s.o[i * 4 + j] @= s.b[j]
+            else:
+              s.o[i * 4 + j] @= s.b[7 - j]
+          else:
+            if s.sel == j:
+              s.o[i * 4 + j] @= s.en
+            else:
+              s.o[i * 4 + j] @= 0
 
 
 def sequences():
